@@ -85,7 +85,7 @@ theorem pushSpecial_away (u : Uplinks) (a : Special) (reg : Registry) (h : u.wri
 
 /-! ### `push` -/
 
-theorem push_home (u : Uplinks) (lane : Nat) (ev : Resp) (reg : Registry) (h : u.writerHome = true) :
+theorem push_home_linklanguplinks (u : Uplinks) (lane : Nat) (ev : Resp) (reg : Registry) (h : u.writerHome = true) :
     u.push lane ev reg = ({ u with writerHome := false }, some ⟨reg.nameFor lane, directNotes ev, some lane⟩) := by
   simp [Uplinks.push, h]
 
